@@ -18,10 +18,30 @@ for l in open('/verif/mutants/RESULTS.tsv'):
     caught = 'exit=1' in p[1] and p[3]=='replay_exit=1'
     mrows.append("| %s | %s | %s | %s |"%(name.replace('__',' / '), "caught" if caught else "not caught (equivalent: see 9.4)", cls, steps))
 mut="| mutant | quick tier | violation class | steps before -> after minimisation |\n|---|---|---|---|\n"+"\n".join(mrows)
+# mechanical sweep
+auto=''
+ap='/verif/mutants/auto/RESULTS.tsv'
+if os.path.exists(ap):
+    tri={}
+    tp='/verif/mutants/auto/TRIAGE.tsv'
+    if os.path.exists(tp):
+        for l in open(tp):
+            f=l.rstrip('\n').split('\t')
+            if len(f)>=2: tri[f[0]]=f[1]
+    rows_a=[l.rstrip('\n').split('\t') for l in open(ap) if l.strip()]
+    from collections import Counter
+    c=Counter(r[1] for r in rows_a)
+    killed_by=Counter(r[2] for r in rows_a if r[1]=='killed')
+    auto="%d mechanical mutants: %d do not compile, %d killed by a quick check (first killing check: %s), %d stop every world that needs the mutated contract with a harness error (exit 2: the contract cannot be deployed at all), %d survive.\n\n"%(len(rows_a),c.get('uncompilable',0),c.get('killed',0),', '.join('%s %d'%(k,v) for k,v in sorted(killed_by.items())),c.get('harness',0),c.get('survived',0))
+    auto+="| surviving / undecided mutant (file:line:operator) | status | triage |\n|---|---|---|\n"
+    for r in rows_a:
+        if r[1] in ('survived','harness','error'):
+            auto+="| %s | %s | %s |\n"%(r[0].replace('|','/'),r[1],tri.get(r[0],'NOT TRIAGED'))
 s=open('/verif/DESIGN.md').read()
 def put(tag,body,s):
     a='<!-- GENERATED:%s -->'%tag; b='<!-- /GENERATED:%s -->'%tag
     return re.sub(re.escape(a)+'.*?'+re.escape(b), lambda m: a+'\n'+body+'\n'+b, s, flags=re.S)
 s=put('SEEDED',seeded,s); s=put('MUTANTS',mut,s)
+if auto: s=put('AUTOMUTANTS',auto,s)
 open('/verif/DESIGN.md','w').write(s)
 print(n,'seeded rows,',len(mrows),'mutant rows')
